@@ -227,6 +227,21 @@ class FindIdentifiers(_ast_util.NodeVisitor):
         ):
             self.listener.undeclared_identifiers.add(node.id)
 
+    def visit_MatchAs(self, node):
+        if node.pattern is not None:
+            self.visit(node.pattern)
+        if node.name is not None:
+            self._add_declared(node.name)
+
+    def visit_MatchStar(self, node):
+        if node.name is not None:
+            self._add_declared(node.name)
+
+    def visit_MatchMapping(self, node):
+        self.generic_visit(node)
+        if node.rest is not None:
+            self._add_declared(node.rest)
+
     def visit_Import(self, node):
         for name in node.names:
             if name.asname is not None:
